@@ -10,16 +10,12 @@ package limits
 //@
 //@ func CalculatePodToCreateAndDelete
 //@   pure
-//@   requires inCount(params.NbNodes) && inCount(params.NbPods) && inCount(params.NbAvailablesPod)
-//@   requires inCount(params.NbOldAvailablesPod) && inCount(params.NbUnresponsiveNodes) && inCount(params.NbOldUnavailablePods)
-//@   requires inI53(params.MaxPodCreation) && inI53(params.MaxUnavailablePod) && inI53(params.MaxUnschedulablePod)
 //@   ensures [C09] creation-exact: nbCreation == max(0, min(params.NbNodes - params.NbPods, params.MaxPodCreation))
 //@   ensures [C03] deletion-exact: nbDeletion == max(0, min(params.MaxUnavailablePod,
 //@             params.MaxUnavailablePod - (params.NbNodes - min(params.NbUnresponsiveNodes, params.MaxUnschedulablePod)
 //@               - params.NbAvailablesPod - params.NbOldAvailablesPod) + params.NbOldUnavailablePods))
 //@
 //@ lemma [C03] budget_available_deleted(N int, a int, oa int, ou int, ur int, M int, S int)
-//@   requires inCount(N) && a >= 0 && oa >= 0 && ou >= 0 && ur >= 0 && a + oa + ou + ur <= N && inI53(M) && inI53(S)
 //@   let U = N - min(ur, S) - a - oa
 //@   let d = max(0, min(M, M - U + ou))
 //@   ensures available-deleted: max(0, d - ou) <= max(0, M - U)
